@@ -3,7 +3,7 @@
 //! These types are used to persist rule definitions to disk.
 
 use crate::ast::{
-    AggregateFunc, ArithExpr, ArithOp, Atom, BodyPredicate, ComparisonOp, Rule, Term,
+    AggregateFunc, ArithExpr, ArithOp, Atom, BodyPredicate, BuiltinFunc, ComparisonOp, Rule, Term,
 };
 use serde::{Deserialize, Serialize};
 
@@ -36,6 +36,12 @@ pub enum SerializableTerm {
     Aggregate(AggregateFunc, String),
     /// Arithmetic expression (e.g., D+1, X*Y)
     Arithmetic(SerializableArithExpr),
+    /// Boolean constant (true / false)
+    BoolConstant(bool),
+    /// Vector literal (e.g., [1.0, 2.0])
+    VectorLiteral(Vec<f64>),
+    /// Built-in function call: function name and arguments (e.g., len(X), pow(X, 2.0))
+    FunctionCall(String, Vec<SerializableTerm>),
 }
 
 /// Serializable arithmetic expression for JSON storage
@@ -140,8 +146,22 @@ impl SerializableTerm {
             Term::Arithmetic(expr) => {
                 SerializableTerm::Arithmetic(SerializableArithExpr::from_arith_expr(expr))
             }
-            // For other complex terms (FunctionCall, VectorLiteral),
-            // we simplify to placeholder as they're not typically used in view definitions
+            Term::BoolConstant(b) => SerializableTerm::BoolConstant(*b),
+            // A vector literal is kept only as a function argument (e.g. cosine(V, [1.0, 2.0]));
+            // on its own it still becomes a placeholder (see the catch-all arm below)
+            Term::FunctionCall(func, args) => SerializableTerm::FunctionCall(
+                func.as_str().to_string(),
+                args.iter()
+                    .map(|arg| match arg {
+                        Term::VectorLiteral(values) => {
+                            SerializableTerm::VectorLiteral(values.clone())
+                        }
+                        other => SerializableTerm::from_term(other),
+                    })
+                    .collect(),
+            ),
+            // Other complex terms (bare vector literals, field access, record patterns)
+            // are not used in view definitions
             _ => SerializableTerm::Placeholder,
         }
     }
@@ -155,6 +175,14 @@ impl SerializableTerm {
             SerializableTerm::Placeholder => Term::Placeholder,
             SerializableTerm::Aggregate(func, var) => Term::Aggregate(func.clone(), var.clone()),
             SerializableTerm::Arithmetic(expr) => Term::Arithmetic(expr.to_arith_expr()),
+            SerializableTerm::BoolConstant(b) => Term::BoolConstant(*b),
+            SerializableTerm::VectorLiteral(values) => Term::VectorLiteral(values.clone()),
+            SerializableTerm::FunctionCall(name, args) => match BuiltinFunc::parse(name) {
+                Some(func) => {
+                    Term::FunctionCall(func, args.iter().map(SerializableTerm::to_term).collect())
+                }
+                None => Term::Placeholder,
+            },
         }
     }
 }
